@@ -200,7 +200,7 @@ def valid_cases(draw, tier):
     else:
         bits = [0] * (4 ** k)
     return {"k": k, "bits": "".join(map(str, bits)), "bool": draw(st.booleans()) and kind != "values>1",
-            "none": kind == "none", "verbose": k <= 5 and draw(st.integers(0, 3)) == 0,
+            "none": kind == "none", "verbose": k <= 7 and draw(st.integers(0, 3)) == 0,
             "dtype": draw(st.sampled_from([None, None, None, "uint8", "int8", "int32", "list", "tuple"]))
             if kind != "values>1" else None,
             "full": draw(st.sampled_from([False] * 9 + [True]))}
